@@ -33,7 +33,7 @@ ASSUMPTIONS = ["a torn last line is dropped by any JSONL reader and equals the s
                "the empty prefix (no run known) is skipped - the statement does not define it",
                "lists in verdicts are compared as sets where the model documents no order"]
 REQUIRED_PROBES = ["launch_trace", "failing_run_trace", "directory_mode_multi_file", "prefix_without_pipeline_end", "subset_without_pipeline_start",
-                   "two_attempts_sharing_a_launch_id"]
+                   "two_attempts_sharing_a_launch_id", "ingest_one_by_one", "ingest_many_list", "ingest_many_lazy_stream", "ingest_many_two_lazy_batches"]
 CONFIG = {
     "quick": {"runs": 2000, "budget_s": 240, "timeout_s": 120},
     "thorough": {"runs": 50000, "budget_s": 1500, "timeout_s": 180},
@@ -98,13 +98,29 @@ def produce(sc: dict, w) -> list[dict]:
     return recs
 
 
+INGEST_HOW: dict[int, int] = {}
+
+
 def verdicts(records: list[dict], *, midway: int | None = None, twice: bool = False) -> dict:
     from semantiva.trace.aggregation.aggregator import TraceAggregator
     agg = TraceAggregator()
-    for i, r in enumerate(records):
-        if midway is not None and i == midway:
+    clean = [{k: v for k, v in r.items() if not k.startswith("_")} for r in records]
+    # the records reach the aggregator through every documented entry: one by one, as a list batch, as a lazy one-shot
+    # stream (a JSONL reader / a merge of per-run files is an iterator), or in two batches
+    how = (len(clean) + (midway or 0) + (1 if twice else 0)) % 4
+    cut = midway if midway is not None else (len(clean) // 2 if how == 3 else None)
+    parts = [clean] if cut is None else [clean[:cut], clean[cut:]]
+    for pi, part in enumerate(parts):
+        if pi == 1 and midway is not None:
             agg.finalize_all()
-        agg.ingest({k: v for k, v in r.items() if not k.startswith("_")})
+        if how == 0:
+            for r in part:
+                agg.ingest(r)
+        elif how == 1:
+            agg.ingest_many(list(part))
+        else:
+            agg.ingest_many(r for r in part)
+    INGEST_HOW[how] = INGEST_HOW.get(how, 0) + 1
     runs, launches = agg.finalize_all()
     if twice:
         runs, launches = agg.finalize_all()
@@ -212,6 +228,7 @@ def _interleave(recs: list[dict], rng: random.Random) -> list[dict]:
 
 
 def execute(sc: dict, seed: int) -> dict:
+    INGEST_HOW.clear()
     stats: dict = {}
     viols: list[dict] = []
     w = SimWorld(seed, lane="c13")
@@ -294,6 +311,10 @@ def execute(sc: dict, seed: int) -> dict:
                 uniq.append(v)
         sample = {"kind": sc["kind"], "mode": sc["mode"], "nodes": sc["base"]["nodes"], "run_space": sc.get("run_space"),
                   "faults": sc.get("faults"), "record_types": [r.get("record_type") for r in recs]}
+        for how, name in ((0, "ingest_one_by_one"), (1, "ingest_many_list"), (2, "ingest_many_lazy_stream"), (3, "ingest_many_two_lazy_batches")):
+            if INGEST_HOW.get(how):
+                stats[f"probe.{name}"] = INGEST_HOW[how]
+        INGEST_HOW.clear()
         stats["sim_seconds"] = 0.0265 * w.clock.reads
         return {"violations": uniq, "stats": stats, "digests": [td], "nontrivial": nontrivial, "sample": sample,
                 "digest": w.digest()}
